@@ -11,6 +11,8 @@ LEAN_TARGETS = ['Mahotas.Proofs.FilterIter']
 LEVEL = 'proof'
 MODES = ['nearest', 'wrap', 'reflect', 'mirror', 'constant', 'ignore']
 DTYPES = ['uint8', 'int32', 'float64', 'int8', 'uint16', 'int64', 'uint64', 'float32', 'bool']
+DTNAMES = {'bool': 'b1', 'uint8': 'u8', 'uint16': 'u16', 'uint32': 'u32', 'uint64': 'u64',
+           'int8': 'i8', 'int16': 'i16', 'int32': 'i32', 'int64': 'i64'}   # protocol names of DT.ofName
 RULE = ('corpus; find: every placement of every sub-window of seeded images up to 6x6 (incl. last row/column and template = '
         'image) plus perturbed (non-occurring) templates; random 1-3 D x 9 dtypes x 7 layouts x 0/1 neighbourhoods of every '
         'shape (odd/even, larger than the image, centre absent) x every rank x 6 modes; templates of every shape. '
@@ -20,14 +22,18 @@ ASSUMPTIONS = ['neighbourhoods Bc are 0/1 arrays (median rank = Bc.sum()//2 coun
                'ranks inside [0, number of members): outside it rank_filter writes nothing (not part of the documented domain)',
                'pixels where no sample at all is selected (ignore mode, centre not a member) are not compared',
                'constant mode with cval = 0 (the only value the wrappers accept)',
-               'template_match: values small enough that no sum overflows the image dtype (pixels whose exact value is out '
-               'of range are skipped); in constant mode only pixels whose whole window lies inside the image are compared '
-               '(the statement does not say what a constant sample contributes)',
+               'template_match against the specification: pixels whose exact sum of squared differences fits the image dtype '
+               '(the docstring: computed in the dtype of f, may overflow); in constant mode only pixels whose whole window lies '
+               'inside the image (the statement does not say what a constant sample contributes). Integer and bool dtypes: '
+               'EVERY pixel, overflowing or not, is in addition compared with the model in the wrap-around arithmetic of the '
+               'dtype (= exact value mod 2^bits, C07_template_match_wrapping); float dtypes: small integer values (exact), '
+               'out-of-range pixels skipped',
                'float images hold integer-valued (or quarter-integer, rank filters only) samples: exact arithmetic, no NaN',
                'mean: sums below 2^53 (exact in double); sizes < 2^26']
 TRUSTED = ['numpy (array construction, layout views)', 'python fractions (correctly rounded exact mean)']
 EXHAUSTIVE = {'thorough': True}
-EXPLANATION = ('model = transliteration of rank_filter/mean_filter/template_match/find2d over exact integers, run by the native '
+EXPLANATION = ('model = transliteration of rank_filter/mean_filter/template_match/find2d over exact integers (template_match also in '
+               'the wrap-around arithmetic of the image dtype, with the integral promotions), run by the native '
                'Lean driver; spec = k-th smallest by counting, exact sum/n, sum of squared differences with borderSpec, '
                'occurrence predicate')
 
@@ -48,6 +54,8 @@ def _line(case):
          f"data={gen.enc_arr(case['data'])} bshape={gen.enc_shape(case['bshape'])} bc={gen.enc_arr(case['bc'])}")
     if k == 'rank':
         s += f" rank={case['rank']}"
+    if k == 'tm' and case['dtype'] in DTNAMES:
+        s += f" dt={DTNAMES[case['dtype']]}"
     return s
 
 
@@ -123,10 +131,20 @@ def _judge(case, got, drv):
         lo, hi = (0, 1) if case['dtype'] == 'bool' else gen.dt_range(case['dtype']) if not isf else (-2 ** 24, 2 ** 24)
         cmp = [(case['mode'] != 'constant' or o) and lo <= s <= hi for s, o in zip(spec, obs)]
         bad = [i for i, (a, b, c) in enumerate(zip(g, spec, cmp)) if c and a != b]
-        case['_skipped'] = sum(1 for c in cmp if not c)
+        case['_overflow'] = sum(1 for b in model if not lo <= b <= hi)
         if bad:
             out.append(dict(kind='property', key='template_match', detail=dict(pixels=bad[:8], got=g, spec=spec, mode=case['mode'])))
+        elif not isf:
+            # integer dtypes and bool: EVERY pixel (overflowing ones, constant-mode border pixels) against the model in
+            # the dtype's wrap-around arithmetic (C07_template_match_wrapping: = exact SSD reduced modulo 2^bits)
+            wrap = core.ints(drv['wrap'])
+            badm = [i for i, (a, b) in enumerate(zip(g, wrap)) if a != b]
+            if badm or len(wrap) != len(g):
+                out.append(dict(kind='model', key='template_match-wrap', detail=dict(pixels=badm[:8], got=g, wrap=wrap,
+                                                                                     exact=model)))
+            case['_skipped'] = 0
         else:
+            case['_skipped'] = sum(1 for c in cmp if not c)
             badm = [i for i, (a, b) in enumerate(zip(g, model)) if lo <= b <= hi and a != b]
             if badm:
                 out.append(dict(kind='model', key='template_match-model', detail=dict(pixels=badm[:8], got=g, model=model)))
@@ -176,6 +194,10 @@ def evaluate(cases):
             tags['pixels_without_samples'] = 'yes'
         if case.get('_skipped'):
             tags['pixels_skipped'] = 'yes'
+        if case['kind'] == 'tm':
+            tags['tm_overflow'] = ('n/a' if np.dtype(case['dtype']).kind == 'f' else
+                                   'yes' if case.get('_overflow') else 'no')
+            tags['tm_values'] = case.get('values', 'small')
         nt = got is not None and (bool(np.any(got)) if case['kind'] == 'find' else
                                   not np.array_equal(np.asarray(got, np.float64), np.asarray(A, np.float64)))
         res.append(dict(findings=f, nontrivial=bool(nt), sig=line + case.get('layout', 'C') + case['dtype'], tags=tags))
@@ -303,10 +325,27 @@ def cases(rng, tier):
             tshape = ([rng.choice([1, 2, 3, 4]) for _ in range(nd)] if q < 0.7 else [s + rng.choice([0, 1, 3]) for s in shape])
             while int(np.prod(tshape)) > 60:
                 tshape[tshape.index(max(tshape))] = max(1, max(tshape) // 2)
-            hi = 1 if dtype == 'bool' else 3 if dtype in ('uint8', 'int8') else 6
-            out.append(dict(kind='tm', dtype=dtype, shape=shape, data=[rng.randint(0, hi) for _ in range(n)], bshape=tshape,
-                            bc=[rng.randint(0, hi) for _ in range(int(np.prod(tshape)))], mode=mode, layout=layout,
-                            blayout=rng.choice(['C', 'C', 'F', 'strided'])))
+            nt = int(np.prod(tshape))
+            values = 'small'
+            if dtype != 'bool' and not isf and rng.random() < 0.45:
+                # large differences: sums (8/16-bit: also the promoted int products, signed: the differences themselves)
+                # overflow the dtype; judged exactly against the wrapping model
+                lo_, hi_ = gen.dt_range(dtype)
+                values = rng.choice(['full-range', 'extremes', 'mid'])
+                def v():
+                    if values == 'extremes':
+                        return rng.choice([lo_, hi_, lo_ + 1, hi_ - 1, 0, hi_ // 2])
+                    if values == 'mid':            # differences around sqrt(range): some pixels overflow, some do not
+                        b = max(2, int((hi_ // max(1, nt)) ** 0.5))
+                        return rng.randint(max(lo_, -2 * b), min(hi_, 2 * b))
+                    return rng.randint(lo_, hi_)
+                data, bc = [v() for _ in range(n)], [v() for _ in range(nt)]
+            else:
+                hi = 1 if dtype == 'bool' else 3 if dtype in ('uint8', 'int8') else 6
+                lo = -hi if (not isf and dtype.startswith('int') and rng.random() < 0.3) or (isf and rng.random() < 0.3) else 0
+                data, bc = [rng.randint(lo, hi) for _ in range(n)], [rng.randint(lo, hi) for _ in range(nt)]
+            out.append(dict(kind='tm', dtype=dtype, shape=shape, data=data, bshape=tshape, bc=bc, mode=mode, layout=layout,
+                            blayout=rng.choice(['C', 'C', 'F', 'strided']), values=values))
         else:
             n0, n1 = rng.randint(1, 7), rng.randint(1, 7)
             t0, t1 = rng.randint(1, n0), rng.randint(1, n1)
